@@ -234,6 +234,9 @@ func hostileStreams(tier string, seed uint64, originAddr string) []stream {
 		add("pipelined-300", l, "fin", rep(valid, 300))
 		add("expect-continue-no-body", l, "rst", []byte("POST http://"+originAddr+"/x HTTP/1.1\r\nHost: x\r\nExpect: 100-continue\r\nContent-Length: 10\r\n\r\n"))
 		add("upgrade-h2c", l, "fin", []byte("GET http://"+originAddr+"/probe HTTP/1.1\r\nHost: x\r\nConnection: Upgrade, HTTP2-Settings\r\nUpgrade: h2c\r\nHTTP2-Settings: AAMAAABkAAQCAAAAAAIAAAAA\r\n\r\n"))
+		add("connection-upgrade-without-upgrade-field", l, "fin", []byte("GET http://"+originAddr+"/probe HTTP/1.1\r\nHost: x\r\nConnection: Upgrade\r\n\r\n"))
+		add("upgrade-field-empty", l, "fin", []byte("GET http://"+originAddr+"/probe HTTP/1.1\r\nHost: x\r\nConnection: Upgrade\r\nUpgrade:\r\n\r\n"))
+		add("connection-field-empty-tokens", l, "fin", []byte("GET http://"+originAddr+"/probe HTTP/1.1\r\nHost: x\r\nConnection: ,, ,\r\nConnection:\r\nProxy-Connection:\r\n\r\n"))
 		add("header-without-colon", l, "fin", []byte("GET http://"+originAddr+"/probe HTTP/1.1\r\nHost x\r\n\r\n"))
 		add("obs-fold", l, "fin", []byte("GET http://"+originAddr+"/probe HTTP/1.1\r\nHost: x\r\nX-A: a\r\n b\r\n\r\n"))
 		add("reset-mid-head", l, "rst", []byte("GET http://"+originAddr+"/probe HTTP/1.1\r\nHos"))
